@@ -432,3 +432,22 @@ _c("reset",
    params={"self": "MidiTrack"}, returns="None",
    ensures=[("no-data-and-a-zero-delta-time", "self.track_data == b'' and self.delta_time == b'\\x00'")],
    modifies=["param:self"], havoc={"self.track_data": "bytes", "self.delta_time": "bytes"}, battery="track_only")
+
+# ---------------------------------------------------------------- file construction and reset
+CONTRACTS[F + "reset"] = dict(
+    params={"self": "MidiFile"}, returns="None",
+    ensures=[("every-track-emptied-with-a-zero-delta-time",
+              "all([t.track_data == b'' and t.delta_time == b'\\x00' for t in self.tracks])")],
+    split=_FILE_SPLIT, split_is_domain=True, modifies=["param:self"], properties=["C16"], battery="midifile",
+    notes="domain: files of 0..4 tracks with arbitrary data")
+CLASSES["BlankMidiFile"] = {"class": "mingus.midi.midi_file_out.MidiFile", "fields": {}}
+CONTRACTS[F + "__init__"] = dict(
+    params={"self": "BlankMidiFile", "tracks": "list[MidiTrack]"}, returns="None",
+    ensures=[("holds-the-tracks-it-was-given-in-order", "self.tracks is tracks"),
+             ("the-given-tracks-are-not-reset", "all([tracks[i].track_data == old_data[i] for i in range(len(tracks))])")],
+    old={"old_data": "[t.track_data for t in tracks]"},
+    variants=[dict(name="default", params={"self": "BlankMidiFile"}, requires="True", old={}, split=None,
+                   ensures=[("starts-without-tracks", "len(self.tracks) == 0")])],
+    split=[{"param_types": {"tracks": "[" + ",".join(["MidiTrack"] * k) + "]"}} for k in range(0, 5)],
+    split_is_domain=True, modifies=["param:self"], properties=["C16"], battery="midifile_blank",
+    notes="domain: 0..4 tracks with arbitrary data; the reset in the constructor runs before the tracks are stored, on the class attribute's (empty) list")
